@@ -111,6 +111,24 @@ func (h *histRun) checkC03() {
 				h.stat("c03_pairs_skipped_known", 1)
 				continue
 			}
+			// finding C: the client keeps the resource only through a resource
+			// that was revived from its dead snapshot (whose references the
+			// gateway does not follow any more)
+			viaRevived := false
+			for hrid, hres := range rc.Cache {
+				if hrid == rid || !h.hasNote("populate.deleted", c.CID, hrid) {
+					continue
+				}
+				for _, ref := range hres.refs() {
+					if ref == rid {
+						viaRevived = true
+					}
+				}
+			}
+			if viaRevived {
+				h.stat("c03_pairs_skipped_known", 1)
+				continue
+			}
 			var stream []StreamEv
 			for _, ev := range wr.Stream {
 				if ev.Kind != "reaccess" && ev.Matched {
